@@ -109,14 +109,38 @@ def generate(g, tier):
         names = [f'part{k}' for k in range(nf)]
         files = {}
         pad = r.randint(0, 2)
+        same = g.chance(0.5)        # the very same text on the same line of every file: still one located warning per file
+        w0 = r.choice(DUCKY3)
         for k, nm in enumerate(names):
-            files[f'proj/{nm}.txt'] = '\n'.join(['STRING pad'] * pad + [f'{r.choice(DUCKY3)} a{k}', 'STRING tail'])
-        how = r.choice(['group', 'group', 'lines', 'func'])
+            files[f'proj/{nm}.txt'] = '\n'.join(['STRING pad'] * pad + [f'{w0} same' if same else f'{r.choice(DUCKY3)} a{k}', 'STRING tail'])
+        how = r.choice(['group', 'group', 'lines', 'func', 'loop'])
         if how == 'group': main = 'START\n' + '\n'.join('    ' + nm for nm in names)
         elif how == 'lines': main = '\n'.join(f'START {nm}' for nm in names)
+        elif how == 'loop': main = f'REPEAT i,{nf}\n    $START "part"+i'
         else: main = 'FUNC ld which\n    IF which == 0\n        START part0\n    ELSE\n        START part1\nREPEAT i,2\n    RUN ld i'; nf = 2
         files['proj/main.txt'] = main
         cases.append(dict(op='compile_file', file='proj/main.txt', files=files, meta=dict(family='multi-file', nwarn=nf)))
+    # an unknown word is passed through even when the program has given that very word another meaning: the name of a function,
+    # of a parameter, of a variable (functions are only ever called with RUN)
+    for _ in range(count(tier, 40, 400)):
+        nm = r.choice(['hold', 'release', 'attackmode', 'HOLD', 'Release', 'my_fn', 'x1', 'inject_mod', 'WAIT_FOR_BUTTON_PRESS'])
+        arg = r.choice(['"b"', 'HID STORAGE', 'k', '1+1', ''])
+        use = (nm + ' ' + arg).rstrip()
+        out_use = (nm.upper() + ' ' + arg).rstrip()
+        shape = r.choice(['func', 'func-param', 'var', 'func-loop'])
+        if shape == 'func':
+            lines = [f'FUNC {nm} key', '    $STRING "holding "+key', f'RUN {nm} "a"', use, 'STRING end']
+            exp, unk = ['STRING holding a', out_use, 'STRING end'], [4]
+        elif shape == 'func-param':
+            lines = [f'FUNC press {nm}', f'    $STRING "p="+{nm}', f'    {use}', 'RUN press 7']
+            exp, unk = ['STRING p=7', out_use], [3]
+        elif shape == 'var':
+            lines = [f'VAR {nm} 5', use, f'$STRING {nm}+1']
+            exp, unk = [out_use, 'STRING 6'], [2]
+        else:
+            lines = [f'FUNC {nm}', '    STRING body', 'REPEAT 2', f'    {use}', f'RUN {nm}']
+            exp, unk = [out_use, out_use, 'STRING body'], [4]
+        cases.append(dict(op='compile', src=dict(text='\n'.join(lines)), meta=dict(family='word-with-another-meaning', exp=['ok', exp, [], None], unknown_lines=unk)))
     # only known commands: no such warning
     cases += [dict(c, meta=dict(c['meta'], unknown_lines=[], family='known-only')) for c in ast_cases(g, count(tier, 150, 1500), W, (5, 16), 4, 'known-only')]
     # IGNORE bodies
